@@ -8,11 +8,17 @@ from fractions import Fraction
 
 from lib import common
 from lib.common import Rng, Outcome, zlit, zlist
+from props import _c13_ref as ref
 
 PROP = "C13"
 GO_PKGS = [("c13drv", False)]
 MODEL_VO = ["theories/C13/Corr.vo"]
-ALLOWED_AXIOMS = []
+# Print Assumptions of Properties/C13.v: the integer-only theorems (square roots, SigFigRound, Compare*, binary searches,
+# fail-loudly lemmas) are closed under the global context; the theorems over the reals report the standard library's
+# real-number axioms, and - through Coq-Interval's BigZ floating-point computations - the kernel's primitive 63-bit
+# integers and their specification (prefix match).
+ALLOWED_AXIOMS = ["ClassicalDedekindReals.sig_forall_dec", "ClassicalDedekindReals.sig_not_dec", "Classical_Prop.classic",
+                  "FunctionalExtensionality.functional_extensionality_dep", "PrimInt63.", "Uint63."]
 
 P18 = 10 ** 18
 P36 = 10 ** 36
@@ -24,7 +30,12 @@ ST = {"ok": 0, "neg_sqrt": 1, "neg_exponent": 2, "exp_too_large": 3, "log_domain
 
 # op name -> (code in C13/Corr.v, relative vm_compute cost)
 OPS = {"sqrt": (1, 1), "sqrt_bd": (2, 2), "sigfig": (3, 1), "cmp_int": (4, 1), "cmp_bd": (5, 1),
-       "cmp_dec": (6, 1), "bsearch": (7, 6), "bsearch_bd": (8, 20)}
+       "cmp_dec": (6, 1), "bsearch": (7, 6), "bsearch_bd": (8, 20), "exp2": (9, 3), "log2": (10, 500), "ln": (11, 500),
+       "ticklog": (12, 500), "customlog": (13, 1000), "pow": (14, 30), "powapprox": (15, 30), "bd_power": (16, 3)}
+# ops whose Coq model exists (the others are run through the implementation and the oracle only)
+MODELLED = {"sqrt", "sqrt_bd", "sigfig", "cmp_int", "cmp_bd", "cmp_dec", "bsearch", "bsearch_bd", "exp2", "bd_power"}
+POW_PRECISION = 10 ** 10          # the documented power precision 0.00000001 as a raw Dec
+MAX_EXP2 = 512 * P36
 
 
 # ---------------------------------------------------------------------------------------------
@@ -355,7 +366,129 @@ def gen_bsearch(r, n, op):
     return out
 
 
+def gen_exp2(r, n):
+    out = [mk("exp2", v) for v in around([0, P36, 2 * P36, P36 // 2, 511 * P36, MAX_EXP2, 513 * P36, 1024 * P36]) + [-P36, -(10 ** 30), 2 ** 1100]]
+    for k in range(0, 513, max(1, 513 * 4 // n)):                       # integer exponents and their neighbours
+        out += [mk("exp2", v) for v in around([k * P36]) if 0 <= v]
+    while len(out) < n:
+        x = r.below(100)
+        if x < 55:
+            v = r.range(0, 512) * P36 + r.below(P36)                      # uniform fractional part
+        elif x < 70:
+            v = r.below(P36)                                              # [0,1)
+        elif x < 80:
+            v = r.range(0, 512) * P36 + r.choice([1, -1]) * loguniform(r, 1, 119)   # just above / below an integer
+        elif x < 90:
+            v = loguniform(r, 1, 129)                                     # log-uniform over the whole domain
+        elif x < 95:
+            v = MAX_EXP2 + r.choice([1, -1]) * loguniform(r, 1, 125)      # around the maximum exponent
+        else:
+            v = -loguniform(r, 1, 130) if r.chance(1, 2) else MAX_EXP2 + loguniform(r, 1, 200)
+        out.append(mk("exp2", v))
+    return out
+
+
+def gen_log_x(r, n):
+    """arguments of LogBase2 and the derived logarithms (raw x 10^36)"""
+    vals = around([1, 2, 3, P36, 2 * P36, 4 * P36, P36 // 2, 10 * P36, 2718281828459045235360287471352662498, 2 ** 1144 - 2])
+    vals += [0, -1, -P36, -(2 ** 1000)]
+    for k in (-119, -100, -60, -10, -3, -2, -1, 1, 2, 3, 10, 64, 100, 512, 1000, 1023):     # powers of two +-1 ulp
+        v = (P36 << k) if k >= 0 else (P36 >> -k)
+        vals += around([v], lo=1)
+    while len(vals) < n:
+        x = r.below(100)
+        if x < 40:
+            vals.append(loguniform(r, 1, 240))
+        elif x < 55:
+            vals.append(P36 + r.choice([1, -1]) * loguniform(r, 1, 118))       # close to 1
+        elif x < 70:
+            vals.append(r.range(P36, 2 * P36))                                   # mantissa range [1,2)
+        elif x < 80:
+            vals.append(loguniform(r, 240, 1144))
+        elif x < 92:
+            k = r.range(-110, 900)
+            v = (P36 << k) if k >= 0 else (P36 >> -k)
+            vals.append(max(1, v + r.choice([1, -1]) * loguniform(r, 1, max(2, v.bit_length() // 2))))
+        else:
+            vals.append(-loguniform(r, 1, 300) if r.chance(1, 2) else 0)
+    return vals[:n] if n >= 60 else vals[:60]
+
+
+def gen_customlog(r, n):
+    bases = around([P36, 2 * P36, 10 * P36, P36 // 2, P36 + 10 ** 32, 1000100000000000000000000000000000000]) + [0, -P36, 1, P36 + 10 ** 18]
+    out = [mk("customlog", r.choice([P36, 8 * P36, 1234 * P36 // 10, 3]), b) for b in bases]
+    while len(out) < n:
+        x = gen_log_x(r, 60)[r.below(60)] if r.chance(1, 4) else loguniform(r, 1, 260)
+        b = r.choice([2 * P36, 10 * P36, 1000100000000000000000000000000000000, loguniform(r, 100, 140), P36 + loguniform(r, 60, 118),
+                      P36 - loguniform(r, 60, 118), loguniform(r, 1, 119)])
+        out.append(mk("customlog", x, b))
+    return out
+
+
+def gen_pow_args(r):
+    x = r.below(100)
+    if x < 8:
+        base = r.choice(around([0, 1, P18 // 2, P18, 2 * P18, P18 * 43 // 100]) + [-P18, 3 * P18, 2 ** 255])
+    elif x < 55:
+        base = r.range(P18 // 2, 3 * P18 // 2)                                    # the range balancer pools reach
+    elif x < 75:
+        base = r.range(3 * P18 // 2, 199 * P18 // 100)
+    elif x < 80:
+        base = 2 * P18 - loguniform(r, 1, 56)                                      # close to 2: slow convergence / iteration limit
+    elif x < 92:
+        base = r.range(1, P18 // 2)                                                # below 0.5 (finding F4)
+    else:
+        base = loguniform(r, 1, 59)
+    y = r.below(100)
+    if y < 10:
+        e = r.choice([0, 1, P18 // 2, P18, 2 * P18, P18 // 4, P18 // 3, 2 * P18 // 3, 3 * P18 // 2, 4 * P18, P18 // 10, P18 - 1, P18 + 1])
+    elif y < 60:
+        e = r.below(P18)
+    elif y < 85:
+        e = r.range(0, 12) * P18 + r.below(P18)
+    elif y < 93:
+        e = r.range(0, 600) * P18 + r.choice([0, r.below(P18)])
+    elif y < 97:
+        e = loguniform(r, 1, 62)
+    else:
+        e = -r.choice([P18, P18 // 2, 3 * P18 // 10, 23 * P18 // 10, loguniform(r, 1, 64)])
+    return base, e
+
+
+def gen_pow(r, n):
+    out = []
+    while len(out) < n:
+        out.append(mk("pow", *gen_pow_args(r)))
+    return out
+
+
+def gen_powapprox(r, n):
+    out = []
+    while len(out) < n:
+        b, e = gen_pow_args(r)
+        if r.chance(4, 5):
+            e = e % P18
+        prec = r.choice([POW_PRECISION] * 6 + [10 ** 12, 10 ** 8, 10 ** 14, 1, 0, -5, 10 ** 17])
+        out.append(mk("powapprox", b, e, prec))
+    return out
+
+
+def gen_bd_power(r, n):
+    out = [mk("bd_power", 2 * P36, 9), mk("bd_power", 2 * P36, 0), mk("bd_power", 2 * P36, 1), mk("bd_power", 2 * P36, 2), mk("bd_power", 2 * P36, 3)]
+    while len(out) < n:
+        out.append(mk("bd_power", r.choice([1, -1]) * loguniform(r, 100, 130), r.choice([r.range(0, 12), r.range(0, 300), 2 ** 64 - 1])))
+    return out
+
+
 GENERATORS = {
+    "exp2": gen_exp2,
+    "log2": lambda r, n: [mk("log2", v) for v in gen_log_x(r, n)],
+    "ln": lambda r, n: [mk("ln", v) for v in gen_log_x(r, n)],
+    "ticklog": lambda r, n: [mk("ticklog", v) for v in gen_log_x(r, n)],
+    "customlog": gen_customlog,
+    "pow": gen_pow,
+    "powapprox": gen_powapprox,
+    "bd_power": gen_bd_power,
     "sigfig": gen_sigfig,
     "cmp_int": lambda r, n: gen_cmp(r, n, "cmp_int"),
     "cmp_bd": lambda r, n: gen_cmp(r, n, "cmp_bd"),
@@ -366,9 +499,11 @@ GENERATORS = {
     "sqrt_bd": lambda r, n: gen_sqrt(r, n, "sqrt_bd"),
 }
 COUNTS = {"quick": {"sqrt": 1500, "sqrt_bd": 1500, "sigfig": 3000, "cmp_int": 1000, "cmp_bd": 1000, "cmp_dec": 1000,
-                    "bsearch": 1500, "bsearch_bd": 800},
+                    "bsearch": 1500, "bsearch_bd": 800, "exp2": 2000, "log2": 300, "ln": 120, "ticklog": 120, "customlog": 80,
+                    "pow": 300, "powapprox": 200, "bd_power": 200},
           "thorough": {"sqrt": 40000, "sqrt_bd": 40000, "sigfig": 60000, "cmp_int": 30000, "cmp_bd": 30000, "cmp_dec": 30000,
-                       "bsearch": 30000, "bsearch_bd": 16000}}
+                       "bsearch": 30000, "bsearch_bd": 16000, "exp2": 100000, "log2": 6000, "ln": 2500, "ticklog": 2500,
+                       "customlog": 2000, "pow": 8000, "powapprox": 5000, "bd_power": 4000}}
 
 
 def gen_cases(seed, tier, ops=None, scale=1):
@@ -508,7 +643,123 @@ def oracle_bsearch(c, o):
     return out
 
 
+def fx(v):
+    """a reference fixed-point integer (ref.PREC fractional bits) as a Fraction"""
+    return Fraction(v, ref.ONE)
+
+
+def oracle_exp2(c, o):
+    e = args_of(c)[0]
+    if e < 0 or e > MAX_EXP2:
+        if o["st"] == 0:
+            return [viol(c, o, "exponent outside [0, 512] returned %s instead of failing" % o["v"], kind="fail_loudly")]
+        return []
+    if o["st"] != 0:
+        return [viol(c, o, "in-domain exponent failed: %s" % o.get("msg"), kind="unexpected_error")]
+    res = Fraction(int(o["v"][0]), P36)
+    true = ref.to_fraction(*ref.exp2_frac(Fraction(e, P36)))
+    rel = abs(res / true - 1)
+    if rel > Fraction(1, 10 ** 18):
+        return [viol(c, o, "2^x off by a relative %.3e (> 1e-18): got %s, 2^x = %.40g" % (float(rel), o["v"][0], float(true)), kind="exp2_bound",
+                     rel_err="%.3e" % float(rel))]
+    return []
+
+
+LOG_ABS = Fraction(1, 10 ** 32)      # the documented accuracy of LogBase2
+ULP36 = Fraction(1, P36)
+
+
+def oracle_log(c, o):
+    """log2 to an absolute 1e-32; derived logs: (log2 x +- 1e-32) / (log2 base +- eps_b), eps_b = 1e-36 for the stored
+    constants (Ln, TickLog), 1e-32 for a computed base logarithm (CustomBaseLog); plus one ulp for the final rounding"""
+    a = args_of(c)
+    x = a[0]
+    op = c["op"]
+    base_bad = op == "customlog" and (a[1] <= 0 or a[1] == P36)
+    if x <= 0 or base_bad:
+        if o["st"] == 0:
+            return [viol(c, o, "argument outside the domain returned %s instead of failing" % o["v"], kind="fail_loudly")]
+        return []
+    lx = fx(ref.log2_frac(Fraction(x, P36)))
+    if op == "log2":
+        lb, eps_b = Fraction(1), Fraction(0)
+    elif op == "ln":
+        lb, eps_b = Fraction(ref.ONE, ref.ln2()), ULP36
+    elif op == "ticklog":
+        lb, eps_b = fx(ref.log2_frac(Fraction(10001, 10000))), ULP36
+    else:
+        lb, eps_b = fx(ref.log2_frac(Fraction(a[1], P36))), LOG_ABS
+    if o["st"] != 0:
+        if op == "customlog" and abs(lb) < 10 ** 3 * LOG_ABS:
+            return []           # base so close to 1 that its computed log2 may be 0: division by zero is a loud failure
+        return [viol(c, o, "in-domain argument failed: %s" % o.get("msg"), kind="unexpected_error")]
+    res = Fraction(int(o["v"][0]), P36)
+    true = lx / lb
+    if abs(lb) <= 2 * eps_b:
+        return []               # no meaningful bound
+    bound = (LOG_ABS + abs(true) * eps_b) / (abs(lb) - eps_b) + (ULP36 if op != "log2" else 0)
+    err = abs(res - true)
+    if err > bound:
+        return [viol(c, o, "off by %.3e, allowed %.3e (log2 accurate to 1e-32, scaled by the base change): got %s" % (float(err), float(bound), o["v"][0]),
+                     kind="log_bound", err="%.3e" % float(err))]
+    return []
+
+
+def pow_rec(base, e):
+    return {"op": "Pow", "base_class": "lt_0.5" if base < P18 // 2 else "ge_0.5"}
+
+
+def oracle_pow(c, o):
+    """documented domain 0 < base < 2 (PowApprox: <= 2), exponent >= 0.  |result - base^exp| <= powPrecision, the precision
+    applying to the fractional power (so scaled by the integer power when that exceeds 1)."""
+    a = args_of(c)
+    base, e = a[0], a[1]
+    approx = c["op"] == "powapprox"
+    prec = a[2] if approx else POW_PRECISION
+    if base <= 0 or (base >= 2 * P18 and not approx) or (base > 2 * P18 and approx):
+        if o["st"] == 0:
+            return [viol(c, o, "base outside the domain returned %s instead of failing" % o["v"], kind="fail_loudly", op="Pow", base_class="out_of_domain")]
+        return []
+    if o["st"] != 0:
+        return []                   # iteration limit / overflow: loud
+    if approx and not (0 <= e < P18 and 10 ** 8 <= prec <= 10 ** 14):
+        return []                   # outside PowApprox's contract / precisions for which no bound is claimed
+    res = Fraction(int(o["v"][0]), P18)
+    true = ref.to_fraction(*ref.pow_frac(Fraction(base, P18), Fraction(e, P18)))
+    err = abs(res - true)
+    if e <= -P18:
+        # negative exponent with a non-zero integer part: uint64(integer.TruncateInt64()) wraps around, base.Power(2^64-n) is 0
+        # for base < 1 (and panics "Int overflow" for base > 1): a wrong number instead of a loud failure
+        if err > Fraction(prec, P18) * max(1, true):
+            return [viol(c, o, "negative exponent: returned %s, base^exp = %.12g (error %.3e)" % (o["v"][0], float(true), float(err)),
+                         kind="pow_negative_exponent", op="Pow", exp_class="negative_with_integer_part")]
+        return []
+    ipow = Fraction(base, P18) ** (e // P18) if e >= 0 else Fraction(1)
+    bound = (Fraction(prec, P18) + Fraction(1, 10 ** 12)) * max(1, ipow)
+    if err > bound:
+        rec = pow_rec(base, e)
+        return [viol(c, o, "off by %.3e, documented precision %.1e (x integer power %.3g): got %s, base^exp = %.20g"
+                     % (float(err), float(Fraction(prec, P18)), float(max(1, ipow)), o["v"][0], float(true)), kind="pow_bound", fn=c["op"], **rec)]
+    return []
+
+
+def oracle_bd_power(c, o):
+    d, n = args_of(c)
+    if o["st"] != 0 or n > 300:
+        return []
+    res = Fraction(int(o["v"][0]), P36)
+    true = Fraction(d, P36) ** n
+    # square-and-multiply with rounded products: relative error about 2n ulps of the operands
+    if abs(res - true) > (abs(true) * 4 * (n + 1) + 4 * (n + 1)) * ULP36 * max(1, abs(Fraction(d, P36))) ** n:
+        return [viol(c, o, "PowerInteger off: got %s, exact %.30g" % (o["v"][0], float(true)), kind="power_integer")]
+    return []
+
+
 ORACLES = {
+    "exp2": oracle_exp2,
+    "log2": oracle_log, "ln": oracle_log, "ticklog": oracle_log, "customlog": oracle_log,
+    "pow": oracle_pow, "powapprox": oracle_pow,
+    "bd_power": oracle_bd_power,
     "sigfig": oracle_sigfig,
     "cmp_int": lambda c, o: oracle_cmp(c, o, 1),
     "cmp_bd": lambda c, o: oracle_cmp(c, o, P36),
@@ -590,10 +841,12 @@ def run_cases(cases, model_ok, out, tag):
         if o["st"] == 0:
             out.nontrivial.add(key_of(c))
     if model_ok:
-        bad, notes = model_compare(cases, obs, tag)
+        idx = [i for i, c in enumerate(cases) if c["op"] in MODELLED]
+        bad, notes = model_compare([cases[i] for i in idx], [obs[i] for i in idx], tag)
         for n in notes:
             out.mismatches.append({"what": n, "case": None})
-        for i in bad:
+        for j in bad:
+            i = idx[j]
             out.mismatches.append({"what": "C13 model_obs differs from the implementation for op %s" % cases[i]["op"],
                                    "case": cases[i], "impl_flat": [str(x) for x in flat_of(obs[i])]})
     else:
@@ -665,6 +918,8 @@ PERTURB = {   # op -> list of (label, function(case, obs) -> perturbed obs or No
     "cmp_int": [("non-zero verdict replaced by 0", lambda c, o: _cmp_perturb(c, o, 1))],
     "cmp_bd": [("non-zero verdict replaced by 0", lambda c, o: _cmp_perturb(c, o, P36))],
     "cmp_dec": [("non-zero verdict replaced by 0", lambda c, o: _cmp_perturb(c, o, P18))],
+    "exp2": [("result * (1 + 2e-18)", lambda c, o: _bump(o, int(o["v"][0]) * 2 // 10 ** 18 + 1)),
+             ("result * (1 - 2e-18)", lambda c, o: _bump(o, -(int(o["v"][0]) * 2 // 10 ** 18) - 1))],
     "bsearch": [("returned input moved off the solution", lambda c, o: _search_perturb(c, o))],
     "bsearch_bd": [("returned input moved off the solution", lambda c, o: _search_perturb(c, o))],
 }
@@ -701,7 +956,10 @@ def _sigfig_perturb(c, o):
 def selftest(n=60):
     binary = common.go_build("c13drv")
     ok = True
+    assert ref.selfcheck()
     for op in OPS:
+        if op not in MODELLED:
+            continue
         cases = [c for c in GENERATORS[op](Rng(5).fork(op), 400)]
         obs = common.run_driver(binary, cases)
         good = [(c, o) for c, o in zip(cases, obs) if o["st"] == 0]
